@@ -53,15 +53,21 @@ theorem PStream.getLine_cases (s : PStream) :
         split <;> simp_all
 
 /-- what `Parser::get_line` makes of the line the stream returned: only the last line of a text whose final
-    newline is missing comes as `.none`, and it is handed on as an `.lf` line -/
-def fixNl (l : Line) : Line := if l.newline = .none then { l with newline := .lf } else l
+    newline is missing comes as `.none`, and it is handed on as an `.lf` line — or, if it ends in a CR (what is left of a
+    CR LF, D85), as a `.crlf` line without that CR -/
+def fixNl (l : Line) : Line :=
+  if l.newline = .none then
+    (if l.content.getLast? = some CR then { content := l.content.dropLast, newline := .crlf } else { l with newline := .lf })
+  else l
 
-theorem fixNl_content (l : Line) : (fixNl l).content = l.content := by
-  unfold fixNl; split <;> rfl
+theorem fixNl_content (l : Line) (h : l.newline = .none → l.content.getLast? ≠ some CR) : (fixNl l).content = l.content := by
+  unfold fixNl; split
+  · rename_i hn; simp [h hn]
+  · rfl
 
 theorem fixNl_ne_none (l : Line) : (fixNl l).newline ≠ .none := by
   unfold fixNl; split
-  · simp
+  · split <;> simp
   · assumption
 
 theorem fixNl_of_ne_none {l : Line} (h : l.newline ≠ .none) : fixNl l = l := by
@@ -658,7 +664,7 @@ theorem headerStep_eq (st0 : HState) (line : Bytes) (strip : Int) :
        | some r => (parseFileLine r strip).map fun res => ({ st with patch := { p with indexPath := res.1 } }, true)
        | none =>
        match consumeStr (str "Prereq: ") line with
-       | some r => (parseFileLine r 0).map fun res => ({ st with patch := { p with prerequisite := res.1 } }, true)
+       | some r => .ok ({ st with patch := { p with prerequisite := r.takeWhile fun c => c != SP && c != TAB } }, true)
        | none =>
        match consumeStr (str "diff --git ") line with
        | some r =>
@@ -767,9 +773,8 @@ theorem headerStep_inv (st : HState) (line : Bytes) (strip : Int) (st' : HState)
         obtain ⟨rfl, rfl⟩ := ha
         exact ⟨rfl, Or.inl rfl⟩
       · split at h
-        · obtain ⟨a, _, ha⟩ := map_ok h
-          simp only [Prod.mk.injEq] at ha
-          obtain ⟨rfl, rfl⟩ := ha
+        · simp only [Except.ok.injEq, Prod.mk.injEq] at h
+          obtain ⟨rfl, rfl⟩ := h
           exact ⟨rfl, Or.inl rfl⟩
         · split at h
           · split at h
@@ -983,9 +988,8 @@ theorem headerStep_inv2 (st : HState) (line : Bytes) (strip : Int) (st' : HState
         obtain ⟨rfl, rfl⟩ := ha
         exact ⟨rfl, Or.inl ⟨rfl, Or.inl rfl⟩, Or.inl rfl, Or.inl rfl⟩
       · split at h
-        · obtain ⟨a, _, ha⟩ := map_ok h
-          simp only [Prod.mk.injEq] at ha
-          obtain ⟨rfl, rfl⟩ := ha
+        · simp only [Except.ok.injEq, Prod.mk.injEq] at h
+          obtain ⟨rfl, rfl⟩ := h
           exact ⟨rfl, Or.inl ⟨rfl, Or.inl rfl⟩, Or.inl rfl, Or.inl rfl⟩
         · split at h
           · split at h
